@@ -31,6 +31,9 @@
 //@|    spec fn reliable(&self) -> bool;
 //@|    /// stream offset of the next byte (ghost; `ReadWithPos::pos` reports it)
 //@|    spec fn rpos(&self) -> nat;
+//@|    /// slice cursors panic instead of failing when padding runs past the end,
+//@|    /// and refuse misplaced blocks (ghost)
+//@|    spec fn is_slice(&self) -> bool;
 //@  sub <<fn read_exact(&mut self, buf: &mut [u8]) -> deser::Result<()>;>>
 //@  replace <<deser::Result>> <<Result>>
 //@  ret r
@@ -38,6 +41,7 @@
 //@|        requires old(self).wf(),
 //@|        ensures final(self).wf(),
 //@|            final(self).reliable() == old(self).reliable(),
+//@|            final(self).is_slice() == old(self).is_slice(),
 //@|            final(buf)@.len() == old(buf)@.len(),
 //@|            final(self).rem().len() <= old(self).rem().len(),
 //@|            match r {
@@ -51,10 +55,6 @@
 //@end
 
 //@item epserde/src/deser/read.rs props=C01,C07,C11,C12,C14 name=ReadWithPos <<pub trait ReadWithPos: ReadNoStd + Sized {>>
-//@  body_prefix
-//@|    /// slice cursors panic instead of failing when padding runs past the end,
-//@|    /// and refuse misplaced blocks (ghost)
-//@|    spec fn is_slice(&self) -> bool;
 //@  sub <<fn pos(&self) -> usize;>>
 //@  ret r
 //@  spec
@@ -72,7 +72,7 @@
 //@|            final(self).rem().len() <= old(self).rem().len(),
 //@|            ({
 //@|                let pad = pad_spec(old(self).rpos() as int, T::unit() as int);
-//@|                match r {
+//@|                is_pow2(T::unit() as int) && 0 <= pad < T::unit() && match r {
 //@|                    Ok(()) => pad <= old(self).rem().len()
 //@|                        && final(self).rem() == old(self).rem().skip(pad)
 //@|                        && final(self).rpos() == old(self).rpos() + pad,
@@ -114,6 +114,7 @@ pub open spec fn slice_wf(s: &SliceWithPos) -> bool {
 //@|    open spec fn wf(&self) -> bool { slice_wf(self) }
 //@|    open spec fn reliable(&self) -> bool { true }
 //@|    open spec fn rpos(&self) -> nat { self.pos as nat }
+//@|    open spec fn is_slice(&self) -> bool { true }
 //@  sub <<fn read_exact(&mut self, buf: &mut [u8]) -> deser::Result<()> {>>
 //@  ret r
 //@end
@@ -121,8 +122,6 @@ pub open spec fn slice_wf(s: &SliceWithPos) -> bool {
 //@item epserde/src/deser/slice_with_pos.rs props=C02,C07,C12 name=SliceWithPos::ReadWithPos <<impl ReadWithPos for SliceWithPos<'_> {>>
 //@  replace <<deser::Result>> <<Result>>
 //@  replace <<crate::pad_align_to>> <<pad_align_to>>
-//@  body_prefix
-//@|    open spec fn is_slice(&self) -> bool { true }
 //@  sub <<fn pos(&self) -> usize {>>
 //@  ret r
 //@  sub <<fn align<T: MaxSizeOf>(&mut self) -> deser::Result<()> {>>
@@ -151,6 +150,7 @@ pub open spec fn slice_wf(s: &SliceWithPos) -> bool {
 //@|    closed spec fn wf(&self) -> bool { self.backend.wf() && self.pos as int + self.backend.rem().len() <= usize::MAX as int }
 //@|    closed spec fn reliable(&self) -> bool { self.backend.reliable() }
 //@|    closed spec fn rpos(&self) -> nat { self.pos as nat }
+//@|    closed spec fn is_slice(&self) -> bool { false }
 //@  sub <<fn read_exact(&mut self, buf: &mut [u8]) -> deser::Result<()> {>>
 //@  ret r
 //@end
@@ -158,8 +158,6 @@ pub open spec fn slice_wf(s: &SliceWithPos) -> bool {
 //@item epserde/src/deser/reader_with_pos.rs props=C01,C07,C11,C14 name=ReaderWithPos::ReadWithPos <<impl<F: ReadNoStd> ReadWithPos for ReaderWithPos<'_, F> {>>
 //@  replace <<deser::Result>> <<Result>>
 //@  replace <<crate::pad_align_to>> <<pad_align_to>>
-//@  body_prefix
-//@|    closed spec fn is_slice(&self) -> bool { false }
 //@  sub <<fn pos(&self) -> usize {>>
 //@  ret r
 //@  sub <<fn align<T: MaxSizeOf>(&mut self) -> deser::Result<()> {>>
